@@ -823,4 +823,114 @@ example : catalogOf [.unique, .null, .notNull] = some (false, false) := by decid
 example : catalogOf [.notNull, .null, .primaryKey] = some (false, true) := by decide
 example : catalogOf [.primaryKey, .primaryKey] = none := by decide
 
+/-! ### Table-level PRIMARY KEY (c1, …, cn) (after seed s7c16 was missed) -/
+
+theorem setNotNull_length (i : Nat) (l : List (Bool × Bool)) : (setNotNull i l).length = l.length := by
+  induction l generalizing i with
+  | nil => cases i <;> rfl
+  | cons p ps ih => cases i <;> simp [setNotNull, ih]
+
+theorem forceNotNull_length (ks : List Nat) (l : List (Bool × Bool)) :
+    (forceNotNull ks l).length = l.length := by
+  induction ks generalizing l with
+  | nil => rfl
+  | cons k ks ih => simp [forceNotNull, ih, setNotNull_length]
+
+/-- The nullability flag of column `i`. -/
+def nullableAt (l : List (Bool × Bool)) (i : Nat) : Option Bool := (l[i]?).map (·.1)
+
+theorem setNotNull_self (i : Nat) (l : List (Bool × Bool)) (h : i < l.length) :
+    nullableAt (setNotNull i l) i = some false := by
+  induction l generalizing i with
+  | nil => simp at h
+  | cons p ps ih =>
+    cases i with
+    | zero => simp [setNotNull, nullableAt]
+    | succ i =>
+      have := ih i (by simpa using h)
+      simpa [setNotNull, nullableAt] using this
+
+theorem setNotNull_keeps_false (j i : Nat) (l : List (Bool × Bool))
+    (h : nullableAt l i = some false) : nullableAt (setNotNull j l) i = some false := by
+  induction l generalizing i j with
+  | nil => simp [nullableAt] at h
+  | cons p ps ih =>
+    cases j with
+    | zero =>
+      cases i with
+      | zero => simp [setNotNull, nullableAt]
+      | succ i => simpa [setNotNull, nullableAt] using h
+    | succ j =>
+      cases i with
+      | zero => simpa [setNotNull, nullableAt] using h
+      | succ i =>
+        have := ih j i (by simpa [nullableAt] using h)
+        simpa [setNotNull, nullableAt] using this
+
+theorem forceNotNull_keeps_false (ks : List Nat) (i : Nat) (l : List (Bool × Bool))
+    (h : nullableAt l i = some false) : nullableAt (forceNotNull ks l) i = some false := by
+  induction ks generalizing l with
+  | nil => exact h
+  | cons k ks ih => exact ih _ (setNotNull_keeps_false k i l h)
+
+/-- Induction over the key list: every listed column that exists ends NOT NULL. -/
+theorem forceNotNull_mem (ks : List Nat) (l : List (Bool × Bool)) (i : Nat) (hi : i ∈ ks)
+    (hl : i < l.length) : nullableAt (forceNotNull ks l) i = some false := by
+  induction ks generalizing l with
+  | nil => cases hi
+  | cons k ks ih =>
+    simp only [forceNotNull]
+    by_cases hk : i = k
+    · subst hk
+      exact forceNotNull_keeps_false ks i _ (setNotNull_self i l hl)
+    · have : i ∈ ks := by
+        cases hi with
+        | head => exact absurd rfl hk
+        | tail _ h => exact h
+      exact ih _ this (by rw [setNotNull_length]; exact hl)
+
+/-- Every column listed in a table-level `PRIMARY KEY (c1, …, cn)` is catalogued NOT NULL, whatever
+the order of the key, its length, and the options of the columns. -/
+theorem table_key_columns_not_null (cols : List (List ColOpt)) (key : List Nat)
+    (cat : List (Bool × Bool)) (hc : tableCatalogOf cols key = some cat) :
+    ∀ i ∈ key, nullableAt cat i = some false := by
+  intro i hi
+  unfold tableCatalogOf at hc
+  simp only at hc
+  split at hc
+  · cases hc
+  · split at hc
+    · cases hc
+    · rename_i h2
+      split at hc
+      · cases hc
+      · rename_i h3
+        cases hc
+        have hkey : key.isEmpty = false := by cases key <;> simp_all
+        have hinl : (inlineKeyFrom 0 cols).isEmpty = true := by
+          simpa [hkey] using h2
+        simp only [hinl, if_true]
+        apply forceNotNull_mem key _ i hi
+        simp only [List.length_map]
+        have := h3
+        simp only [List.any_eq_true, decide_eq_true_eq, not_exists, not_and, Nat.not_le] at this
+        exact this i hi
+
+/-- A table of one column without table-level key: the old `catalogOf`. -/
+theorem tableCatalogOf_single (opts : List ColOpt) :
+    tableCatalogOf [opts] [] = (catalogOf opts).map (fun p => [p]) := by
+  unfold tableCatalogOf catalogOf
+  simp only [inlineKeyFrom, List.append_nil, List.length_replicate, List.isEmpty_nil, Bool.not_true,
+    Bool.and_false, List.any_nil]
+  by_cases h1 : pkCount opts > 1
+  · simp [h1]
+  · simp only [h1, if_false]
+    by_cases h0 : pkCount opts = 0
+    · simp [h0, forceNotNull]
+    · have h : pkCount opts = 1 := by omega
+      simp [h, forceNotNull, setNotNull]
+
+example : tableCatalogOf [[], [.null], [.unique]] [2, 0] = some [(false, false), (true, false), (false, false)] := by decide
+example : tableCatalogOf [[.primaryKey], []] [1] = none := by decide
+example : tableCatalogOf [[], []] [2] = none := by decide
 end RlModel
